@@ -800,10 +800,10 @@ PROPS['C03'] = dict(
                'discretize', 'Layer::depth0_bits', 'Layer::build_hash', 'Layer::check_hash'],
     bounds={'quick': 'cell centres (plane oracle, hash back with offsets 0.5) and vertices (three accessors) at depths 0, 1, 2; every image point of the north and equatorial bands: cell number in range and '
                      'offsets in [0, 1] up to rounding, at depths 0 and 29; image points with an offset equal to 1 or below 0 (polar base-cell borders, poles, rounding) mapped into base cells 0 and 8 at depth 0: the cell contains the point; guards at depth 2 (each harness < 6 min: the quick command is stopped after 15 min)',
-            'thorough': 'adds centres / vertices at depths 3, 8, 17, 29; paths and grid at depths 0, 2, 29; the range clause for the south band and at depths 1, 2, 8, 16, 28; image points with an offset equal to 1 or below 0 '
-                        '(polar base-cell borders, poles, rounding): the cell contains the point, per band x base cell of the result at depths 0, 1; the interior-offset round trip at depths 0, 1 and the sph_coo inverse for '
-                        'generic offsets at depth 0 (3 classes) -- 25+ min each, often undecided'},
-    outside='quick tier: containment of border positions and paths (thorough); "sph_coo inverts hash_with_dxdy" for generic offsets and the interior-offset round trip (real-arithmetic reasoning on the scaled coordinates: thorough tier, and the native oracle on replay); the composition with the real proj / unproj within ulps of a cell border and the 1e-13 rad figure near the poles (they depend on the actual libm values; C17 bounds the pair '
+            'thorough': 'adds centres / vertices at depths 3, 8 and vertices at depths 17, 29; paths and grid at depths 0, 2; the range clause for the south band and at depths 1, 2, 8, 16, 28; image points with an offset equal '
+                        'to 1 or below 0 (polar base-cell borders, poles, rounding): the cell contains the point, for every band x base cell of the result at depths 0, 1 (46 classes). Undecided after 40 min each in the build '
+                        'session and therefore tier extended: centres at depths 17, 29, paths at depth 29, the interior-offset round trip and the sph_coo inverse for generic offsets'},
+    outside='NOT decided by a registered command: "sph_coo inverts hash_with_dxdy" for generic offsets and the interior-offset round trip (real-arithmetic reasoning on the scaled coordinates: undecided after 40 min, tier extended; evaluated by the native oracle on replay and in the replay self-test); quick tier: containment of border positions in other base cells, and paths (thorough); the composition with the real proj / unproj within ulps of a cell border and the 1e-13 rad figure near the poles (they depend on the actual libm values; C17 bounds the pair '
             'separately); the clause "the cell given by hash" (hash_v2 vs hash_with_dxdy) is evaluated by the native oracle on replay only; other path segment counts',
     assumptions=_LIBM_ASSUME + ['plane cut: proj returns an arbitrary point of the HEALPix image (guarantee I of C17, slack 2^-50), unproj is the identity on the plane with its domain assertion kept',
                                 'Layer::d0h_lh_in_d0c (called by hash_with_dxdy on / next to the polar base-cell borders) returns any base cell and in-base-cell coordinates placing the same plane point within 2^-46 (lemmas R and P of C01)'],
@@ -859,10 +859,19 @@ _KEEP_T = {
     'C18': r'.',
     'C19': r'^c19_corner_d(2|3|8|17|29)$|^c19_any_d(2|3)$|_d(0|1)_fine$',
 }
+# thorough-only harnesses that hit their cap (40 min / memory) when the thorough tiers were run in the build session: tier extended
+_UNDECIDED_IN_BUILD = {
+    'c03_centre_d17', 'c03_centre_d29', 'c03_inv_eqr_b5_d0', 'c03_inv_npc_b0_d0', 'c03_inv_spc_b10_d0', 'c03_offset_d0', 'c03_offset_d1', 'c03_path_d29',
+    'c04_pair_d16', 'c04_pair_d17', 'c04_pair_d24', 'c07_identity_not_not_1_dm0', 'c07_or_2_1_dm10', 'c07_xor_1_2_dm01', 'c08_or_2_1_dm10',
+    'c09_views_array_1_dm2', 'c09_views_array_2_dm1', 'c14_external_d0_dd1', 'c15_fixed_d1_cap2_m2',
+    'c17_proj_formula_npc_neg', 'c17_proj_formula_npc_pos', 'c17_proj_formula_spc_neg', 'c17_proj_formula_spc_pos',
+    'c17_proj_npc_neg', 'c17_proj_npc_pos', 'c17_proj_spc_neg', 'c17_proj_spc_pos',
+    'c11_point_eqr_n3_q0', 'c11_point_eqr_n3_q2', 'c11_point_eqr_n5_q0', 'c11_point_eqr_n5_q1', 'c11_point_eqr_n5_q2', 'c11_point_eqr_n5_q3', 'c11_point_spc_n5_q0',
+}
 for _pid, _p in PROPS.items():
     _rx = _re.compile(_KEEP_T.get(_pid, '.'))
     for _h in _p['harnesses']:
-        if _h['tiers'] == T and not _rx.search(_h['name']):
+        if _h['tiers'] == T and (not _rx.search(_h['name']) or _h['name'] in _UNDECIDED_IN_BUILD):
             _h['tiers'] = X
         # a thorough-only harness gets at most 40 min (beyond that it is reported UNDECIDED); longer caps only in tier extended
         if _h['tiers'] == T and _h['timeout'] > 2400:
